@@ -161,13 +161,13 @@ PROPS.update({
                 {"name": "asan", "variant": "asan"},
                 {"name": "chk", "variant": "chk"},
                 {"name": "rel", "variant": "rel"},
-                {"name": "valgrind", "variant": "rel", "only": "gather,maxima,score_u8"},
+                {"name": "valgrind", "variant": "rel", "only": "gather,maxima,score_u8,stripe_reuse_v"},
             ],
             "thorough": [
                 {"name": "asan", "variant": "asan"},
                 {"name": "chk", "variant": "chk"},
                 {"name": "rel", "variant": "rel"},
-                {"name": "valgrind", "variant": "rel", "only": "gather,maxima,score_u8,score,scan,sample,stripe_histories,dense,encode_v,stripe_v"},
+                {"name": "valgrind", "variant": "rel", "only": "gather,maxima,score_u8,stripe_reuse_v,score,scan,sample,stripe_histories,dense,encode_v,stripe_v"},
             ],
         },
         "wall": {"quick": 200, "thorough": 3000},
